@@ -30,18 +30,19 @@ import (
 var checkFlag = flag.String("check", "c03", "c03 | c04 | c05")
 
 type scenario struct {
-	Name      string   `json:"name"`
-	Proto     string   `json:"proto"`
-	N         int      `json:"n"`
-	T         int      `json:"t"`
-	Cost      int      `json:"cost"`                 // rough cost class: 0 = milliseconds, 1 = tens of ms, 2 = seconds
-	StateOnly bool     `json:"state_only,omitempty"` // only the state-level deviations (C04)
-	BlameOnly bool     `json:"blame_only,omitempty"` // of those, only the delta / chi inconsistencies every honest signer must attribute
-	Pool      int      `json:"pool,omitempty"`       // > 0: the sessions run with a worker pool of that size (C05: a panic on a pool goroutine kills the process)
-	OnlyOps   []string `json:"only_ops,omitempty"`   // restrict the operator menu (quick-tier sizing of expensive scenarios)
-	StartOnly bool     `json:"start_only,omitempty"` // only the dealer-from-the-start deviations (special.go: startCases)
-	OnlyPaths []string `json:"only_paths,omitempty"` // restrict the field paths (quick-tier sizing of expensive scenarios)
-	MsgLen    int      `json:"msg_len,omitempty"`    // length of the message digest that is signed (default 32)
+	Name          string   `json:"name"`
+	Proto         string   `json:"proto"`
+	N             int      `json:"n"`
+	T             int      `json:"t"`
+	Cost          int      `json:"cost"`                     // rough cost class: 0 = milliseconds, 1 = tens of ms, 2 = seconds
+	StateOnly     bool     `json:"state_only,omitempty"`     // only the state-level deviations (C04)
+	BlameOnly     bool     `json:"blame_only,omitempty"`     // of those, only the delta / chi inconsistencies every honest signer must attribute
+	Pool          int      `json:"pool,omitempty"`           // > 0: the sessions run with a worker pool of that size (C05: a panic on a pool goroutine kills the process)
+	OnlyOps       []string `json:"only_ops,omitempty"`       // restrict the operator menu (quick-tier sizing of expensive scenarios)
+	CommittedOnly bool     `json:"committed_only,omitempty"` // only the commit-to-a-malformed-value-and-open-it deviations (special.go: committedValueCases)
+	StartOnly     bool     `json:"start_only,omitempty"`     // only the dealer-from-the-start deviations (special.go: startCases)
+	OnlyPaths     []string `json:"only_paths,omitempty"`     // restrict the field paths (quick-tier sizing of expensive scenarios)
+	MsgLen        int      `json:"msg_len,omitempty"`        // length of the message digest that is signed (default 32)
 }
 
 // world is a scenario made concrete: the session description plus what the oracles need.
@@ -260,6 +261,12 @@ func scenarios(check string) []scenario {
 		l = append(l, scenario{Name: "cmp-keygen/n3/t1/share", Proto: "cmp-keygen", N: 3, T: 1, Cost: 2, OnlyPaths: []string{"/Share"}, OnlyOps: []string{"int-plus1", "sc-plus1", "int-flip-mid", "bit-flip"}})
 	}
 	if check == "C03" || check == "C04" {
+		// the chain-key contribution a party reveals in round 3 of the CMP key generation (three parties: shown differently
+		// to the two honest ones), and a second valid commitment shown to one recipient only and opened consistently
+		l = append(l, scenario{Name: "cmp-keygen/n3/t1/chain-key", Proto: "cmp-keygen", N: 3, T: 1, Cost: 2, OnlyPaths: []string{"/C"}})
+		l = append(l, scenario{Name: "cmp-keygen/n3/t1/second-commitment", Proto: "cmp-keygen", N: 3, T: 1, Cost: 2, CommittedOnly: true})
+	}
+	if check == "C03" || check == "C04" {
 		// the openings of the last round of the offline presigning (presignature id and its decommitment, S share)
 		l = append(l, scenario{Name: "cmp-presign/n2/t1/last-round-openings", Proto: "cmp-presign", N: 2, T: 1, Cost: 2,
 			OnlyPaths: []string{"/PresignatureID", "/DecommitmentID", "/S"}})
@@ -271,6 +278,8 @@ func scenarios(check string) []scenario {
 		// the signature share of the online phase on a digest LONGER than a scalar (64 bytes, what the package's own tests sign)
 		l = append(l, scenario{Name: "cmp-presign-online/n2/t1/digest64", Proto: "cmp-presign-online", N: 2, T: 1, Cost: 1, MsgLen: 64, OnlyPaths: []string{"/Sigma"}})
 	}
+	// a signer that commits to a malformed presignature-id contribution in round 2 and opens that commitment in round 7
+	l = append(l, scenario{Name: "cmp-presign/n2/t1/committed-values", Proto: "cmp-presign", N: 2, T: 1, Cost: 2, CommittedOnly: true})
 	add("cmp-sign", 2, 1, 2) // the largest quick-tier catalogue comes last: an internal deadline, if ever hit, cuts only it
 	if vkit.Thorough() {
 		if check == "C04" {
@@ -292,7 +301,7 @@ func scenarios(check string) []scenario {
 	// ones - an internal deadline, if ever reached (machine under load), cuts the bulk and not the targeted cases
 	rank := func(sc scenario) int {
 		switch {
-		case sc.StartOnly || sc.StateOnly || len(sc.OnlyPaths) > 0 || len(sc.OnlyOps) > 0:
+		case sc.StartOnly || sc.CommittedOnly || sc.StateOnly || len(sc.OnlyPaths) > 0 || len(sc.OnlyOps) > 0:
 			return 0
 		case sc.Cost < 2:
 			return 1
@@ -423,7 +432,7 @@ func main() {
 				continue
 			}
 			res.Progress(n, "process-death|"+k.class(w), k)
-			vs := runCase(w, k, check, false)
+			vs := runCase(w, k, check, os.Getenv("FCHECK_VERBOSE") != "")
 			res.Case(k.key())
 			perScenario[sc.Name]++
 			for _, v := range vs {
